@@ -54,7 +54,7 @@ pub const RUST_NAMES_QUICK: &[&str] = &[
     // the property's list: keywords, prelude items, generator temporaries
     "type", "self", "super", "crate", "match", "fn", "mod", "use", "impl", "trait", "where", "async",
     "await", "dyn", "move", "ref", "static", "option", "result", "vec", "string", "box", "some", "none",
-    "ok", "err", "ptr0", "len0", "result0", "ret", "base", "e", "t", "map-key", "vec0", "handle",
+    "ok", "err", "ptr0", "len0", "result0", "ret", "base", "e", "t", "map-key", "vec0", "handle", "guest",
 ];
 
 pub const RUST_NAMES_MORE: &[&str] = &[
@@ -62,7 +62,7 @@ pub const RUST_NAMES_MORE: &[&str] = &[
     "loop", "mut", "pub", "return", "struct", "true", "unsafe", "while", "abstract", "become", "do",
     "final", "macro", "override", "priv", "typeof", "unsized", "virtual", "yield", "try", "gen", "union",
     "drop", "clone", "default", "send", "sync", "sized", "copy", "into", "from", "iterator", "debug",
-    "core", "alloc", "std", "wit-bindgen", "rt", "guest", "stub", "export", "exports", "new", "rep",
+    "core", "alloc", "std", "wit-bindgen", "rt", "stub", "export", "exports", "new", "rep",
     "ptr", "len", "layout", "address", "array", "arg0", "l0", "v0", "e0", "bytes0", "wit-import", "wit-import0",
     "cleanup-list", "handle0", "this", "from-handle", "take-handle", "lift", "lower", "abi", "i32", "u8",
     "str", "usize", "f32", "bool", "char", "t0", "result1", "ret-area", "cabi-post", "post-return",
